@@ -582,6 +582,9 @@ XProg(v) ==
          mk(<<FuncIn("PU1", "b", <<>>, "U1", FALSE, FALSE), XF("P1", <<"U1">>, "T1")>>,
             <<SetD("Set", "b", <<ItL(1)>>), SetD("Set", "a", <<ItS(1), ItL(2)>>), SetD("Other", "a", <<ItS(1)>>)>>,
             <<XInj("Inject", <<>>, "T1", <<ItS(2)>>, 1)>>)
+    [] v = "two-unnamed-values" ->              \* two values of unnamed types in one injector: both helper variables derive the same base name
+         mk(<<ValueL("V1", "[]T2"), ValueL("V2", "[]T3"), ValueL("V3", "*T8"), XF("Q", <<"[]T2", "[]T3", "*T8">>, "T1")>>, <<>>,
+            <<XInj("Inject", <<>>, "T1", <<ItL(1), ItL(2), ItL(3), ItL(4)>>, 1), XInj("InjectB", <<>>, "T1", <<ItL(4), ItL(3), ItL(2), ItL(1)>>, 1)>>)
     [] v = "same-set-twice-direct" ->          \* one set listed twice in the same call
          mk(<<XF("P2", <<>>, "T2"), XF("P1", <<"T2">>, "T1")>>, <<SetD("SetA", "a", <<ItL(1)>>)>>,
             <<XInj("Inject", <<>>, "T1", <<ItS(1), ItL(2), ItS(1)>>, 1)>>)
@@ -592,6 +595,6 @@ XVariants == {"star-foreign-tag-missing", "star-foreign-tag-ok", "two-files-firs
               "missing-behind-bind", "missing-behind-bind-2", "bind-iface-not-implementing", "arg-returned-through-bind",
               "arg-returned-directly", "shared-import-bind-lacks-concrete", "multi-name-var-sets", "same-set-twice-direct", "same-set-twice-in-set",
               "foreign-struct-star", "foreign-struct-unexported-name", "foreign-struct-exported-name", "variadic-err-provider",
-              "same-named-sets-two-packages"}
+              "same-named-sets-two-packages", "two-unnamed-values"}
 FamilyX(p, vs) == \E v \in vs : p = XProg(v)
 =============================================================================
